@@ -110,6 +110,28 @@ def obsStep (d : ObsDrv) (toks : List String) : Option (ObsDrv × String) :=
     match g.toNat?.bind d.aw.dropGuard with
     | some (a, lw) => some (d.ofAw a, "ok" ++ showWakes a (d.wakeIds [] lw))
     | none => bad
+  | ["anextnow", i] =>
+    match i.toNat? with
+    | none => bad
+    | some i =>
+      if !w.subAlive i then bad else
+      let (a, k, ok) := d.aw.startFut (.nextNow i)
+      if ok then
+        match a.finishFut eqvT hashT k with
+        | some (a', r, lw, wk) => some (d.ofAw a', r ++ showWakes a' (d.wakeIds wk lw))
+        | none => bad
+      else some (d.ofAw a, "Pending(" ++ toString k ++ ")")
+  | ["asub", h] =>
+    match h.toNat? with
+    | none => bad
+    | some h =>
+      if !w.ownerAlive h then bad else
+      let (a, k, ok) := d.aw.startFut (.subscribe h)
+      if ok then
+        match a.finishFut eqvT hashT k with
+        | some (a', r, lw, wk) => some (d.ofAw a', r ++ showWakes a' (d.wakeIds wk lw))
+        | none => bad
+      else some (d.ofAw a, "Pending(" ++ toString k ++ ")")
   | ["anext", i] =>
     match i.toNat? with
     | none => bad
@@ -150,7 +172,7 @@ def obsStep (d : ObsDrv) (toks : List String) : Option (ObsDrv × String) :=
           | none => bad
         else some (d.ofAw a, "Pending(" ++ toString k ++ ")")
       | _, _ => bad
-    else if d.async && (kind = "opoll" || kind = "opollt") && rest = [] then
+    else if d.async && (kind = "opoll" || kind = "opollt" || kind = "onextf" || kind = "onextrf") && rest = [] then
       match h.toNat? with
       | none => bad
       | some i =>
@@ -186,6 +208,14 @@ def obsStep (d : ObsDrv) (toks : List String) : Option (ObsDrv × String) :=
       | some (w', id) => some ({ d with w := { w' with arcState := w'.arcState + extra } }, toString id)
       | none => bad
     | "opoll", some i, [] =>
+      match w.poll i with
+      | some (w', r) => some ({ d with w := w' }, r.show)
+      | none => bad
+    | "onextf", some i, [] =>     -- the `next()` future polled once: the same `poll_update`
+      match w.poll i with
+      | some (w', r) => some ({ d with w := w' }, r.show)
+      | none => bad
+    | "onextrf", some i, [] =>    -- the `next_ref()` future polled once (uncontended): likewise
       match w.poll i with
       | some (w', r) => some ({ d with w := w' }, r.show)
       | none => bad
